@@ -597,6 +597,16 @@ class Analysis:
             if hi is None or lo is None:
                 wc[(bid, k)] = wc.get((bid, k), 0) + 1
             use_th = wc.get((bid, k), 0) <= 2          # then give up and go to the type limit
+            if isinstance(k[1], str) and k[1].startswith("@"):
+                # a cursor: the offsets of the cursors it is compared with (`d < dx`)
+                for peer in self._cursor_peers(k[1][1:]):
+                    pv = new.get(("iv", "@" + peer))
+                    if pv is None or new.get(("pb", peer)) != new.get(("pb", k[1][1:])):
+                        continue
+                    if hi is None and v[1] is not None and pv[1] is not None and pv[1] >= v[1]:
+                        hi = pv[1]
+                    if lo is None and v[0] is not None and pv[0] is not None and pv[0] <= v[0]:
+                        lo = pv[0]
             if use_th and hi is None and v[1] is not None:
                 for th in self._thresholds(k):
                     if th >= v[1]:
@@ -1081,6 +1091,17 @@ class Analysis:
                     st[ok] = off
                     return st
             return st
+        # p = q + e - c: offset from another tracked cursor
+        qn, qterms = self._cursor_terms(r, st_eval)
+        if qn is not None:
+            off = st_eval.get(("iv", "@" + qn), (None, None))
+            for sign, tnode in qterms:
+                v = ivl.eval_nowrap(self, st_eval, tnode)
+                off = add(off, v) if sign > 0 else sub(off, v)
+            st = dict(st)
+            st[pk] = st_eval[("pb", qn)]
+            st[ok] = off
+            return st
         base, terms = ivl._ptr_terms(f, r)
         if base is None:
             return st
@@ -1098,6 +1119,66 @@ class Analysis:
         st[pk] = (n, self._arr_name(base))
         st[ok] = off
         return st
+
+    def _cursor_terms(self, node, st, sign=1, depth=0):
+        """`q + e - c ...` with q a tracked cursor: (q, [(sign, offset node)]), else (None, [])."""
+        f = self.f
+        j = ex.skip(f, node)
+        e = f.exprs[j]
+        if depth > 8:
+            return None, []
+        if e["k"] == "cast" and e["ck"] in ("NoOp", "BitCast", "LValueToRValue"):
+            return self._cursor_terms(e["c"][0], st, sign, depth + 1)
+        if e["k"] == "ref":
+            if depth > 0 and ("pb", e.get("name")) in st and e.get("dk") in ("local", "param"):
+                return e["name"], []
+            return None, []
+        if e["k"] == "bin" and e["op"] in ("+", "-"):
+            a, b = e["c"]
+            ta = f.exprs[ex.skip(f, a)].get("t", "")
+            tb = f.exprs[ex.skip(f, b)].get("t", "")
+            if ta.rstrip().endswith("*") and not tb.rstrip().endswith("*"):
+                q, terms = self._cursor_terms(a, st, sign, depth + 1)
+                return q, terms + [(sign if e["op"] == "+" else -sign, b)]
+            if tb.rstrip().endswith("*") and not ta.rstrip().endswith("*") and e["op"] == "+":
+                q, terms = self._cursor_terms(b, st, sign, depth + 1)
+                return q, terms + [(sign, a)]
+        return None, []
+
+    def _cursor_ref(self, node, st):
+        """Name of the tracked cursor a comparison operand is, else None."""
+        f = self.f
+        j = ex.skip(f, node)
+        e = f.exprs[j]
+        while e["k"] == "cast" and e["ck"] in ("NoOp", "BitCast", "LValueToRValue"):
+            j = ex.skip(f, e["c"][0])
+            e = f.exprs[j]
+        if e["k"] == "ref" and e.get("dk") in ("local", "param") and ("pb", e.get("name")) in st:
+            return e["name"]
+        return None
+
+    def _cursor_peers(self, name):
+        """Pointer locals `name` is compared with (their offsets are the natural widening thresholds)."""
+        f = self.f
+        c = f._cache.setdefault("cursor_peers", {})
+        if name not in c:
+            peers = set()
+            for e in f.exprs:
+                if e["k"] == "bin" and e["op"] in ("<", ">", "<=", ">=", "==", "!="):
+                    ns = []
+                    for x in e["c"]:
+                        j = ex.skip(f, x)
+                        xe = f.exprs[j]
+                        while xe["k"] == "cast" and xe["ck"] in ("NoOp", "BitCast", "LValueToRValue"):
+                            j = ex.skip(f, xe["c"][0])
+                            xe = f.exprs[j]
+                        ns.append(xe.get("name") if xe["k"] == "ref" and xe.get("dk") in ("local", "param") else None)
+                    if ns[0] == name and ns[1]:
+                        peers.add(ns[1])
+                    elif ns[1] == name and ns[0]:
+                        peers.add(ns[0])
+            c[name] = peers
+        return c[name]
 
     def _arr_name(self, b):
         f = self.f
@@ -1464,6 +1545,18 @@ class Analysis:
                 nv = wrap(add(no, (1, 1) if es["op"] == "++" else (-1, -1)), es.get("it"), arith=True)
                 out = dict(st)
                 out[key] = nv
+                return out
+        # two cursors into the same array: the comparison is about their offsets
+        if a is not None and b is not None:
+            ca, cb_ = self._cursor_ref(a, st), self._cursor_ref(b, st)
+            if ca and cb_ and ca != cb_ and st.get(("pb", ca)) == st.get(("pb", cb_)):
+                va, vb = st.get(("iv", "@" + ca), (None, None)), st.get(("iv", "@" + cb_), (None, None))
+                na, nb = _refine(op, va, vb)
+                if is_empty(na) or is_empty(nb):
+                    return None
+                out = dict(st)
+                out[("iv", "@" + ca)] = na
+                out[("iv", "@" + cb_)] = nb
                 return out
         # (x | y) < 0 false  => x >= 0 and y >= 0 ; handled before generic
         ja = ex.skip(f, a)
